@@ -57,6 +57,27 @@ func memKB() int {
 	return defaultMemKB
 }
 
+// batchMemKB is the (lower) cap of the batch child. A decoder that allocates what a hostile
+// length field announces touches gigabytes before it dies under the full cap, which takes
+// seconds; the batch child dies earlier and cheaper. That is sound because a death of the batch
+// child is never a verdict: the suspect input is always re-run alone under the full cap.
+func batchMemKB() int {
+	if v, err := strconv.Atoi(os.Getenv("VERIF_DECODE_BATCH_MEMLIMIT_KB")); err == nil && v > 0 {
+		return v
+	}
+	return 2359296 // 2.25 GiB: the Go runtime of this binary needs 1.6 GiB of address space before the first case
+}
+
+// goMemLimitKB: soft limit of the collector for a child under the given cap - 80 % of what the
+// cap leaves after the 1.6 GiB of address space that the runtime reserves at start.
+func goMemLimitKB(capKB int) int {
+	l := (capKB - 1677721) / 5 * 4
+	if l < 262144 {
+		l = 262144
+	}
+	return l
+}
+
 func TestCheck(t *testing.T) {
 	switch os.Getenv("VERIF_DECODE_MODE") {
 	case "batch":
@@ -386,6 +407,9 @@ func runChild(mode, dir string) childExit {
 	}
 	defer errf.Close()
 	kb := memKB()
+	if mode == "batch" && batchMemKB() < kb {
+		kb = batchMemKB()
+	}
 	cmd := exec.Command("bash", "-c", fmt.Sprintf("ulimit -v %d 2>/dev/null; exec \"$@\"", kb), "x",
 		os.Args[0], "-test.run", "^TestCheck$", "-test.timeout", "0", "-test.count", "1")
 	env := []string{}
@@ -397,7 +421,7 @@ func runChild(mode, dir string) childExit {
 	}
 	// let the collector work before the cap is reached: garbage of earlier cases should not kill a child
 	env = append(env, "VERIF_DECODE_MODE="+mode, "VERIF_DECODE_DIR="+dir, fmt.Sprintf("VERIF_DECODE_MEMLIMIT_KB=%d", kb),
-		fmt.Sprintf("GOMEMLIMIT=%dKiB", kb/4*3))
+		fmt.Sprintf("GOMEMLIMIT=%dKiB", goMemLimitKB(kb)))
 	cmd.Env = env
 	cmd.Stdout = errf
 	cmd.Stderr = errf
@@ -594,6 +618,14 @@ func supervise(res *report.Result, dir string) error {
 		if lr.outcome != nil {
 			unconfirmed++
 		}
+		if os.Getenv("VERIF_DECODE_DEBUG") != "" {
+			verdict := "died alone too: " + lr.exit.String()
+			if lr.outcome != nil {
+				verdict = "alone: " + lr.outcome.Status
+			}
+			fmt.Fprintf(os.Stderr, "[decode %d/%d] batch child %s after %.1fs in case %d (%s %s %s@%d %s); %s after %.1fs\n", shard, nshards, ex, ex.wall.Seconds(), k,
+				c.Seed, c.Family, c.Mut.Op, c.Mut.Off, c.Mut.Val, verdict, lr.exit.wall.Seconds())
+		}
 		lones = append(lones, lr)
 		skip = append(skip, int(k))
 		restarts++
@@ -613,8 +645,11 @@ func supervise(res *report.Result, dir string) error {
 	}
 	st.Counters["worker_deaths"] += int64(restarts)
 	st.Counters["worker_deaths_not_reproduced_alone"] += int64(unconfirmed)
-	st.Counters["seeds_in_shard"] += int64(len(pl.Seeds))
 	for _, s := range pl.Seeds {
+		if !s.Own {
+			continue // counted by the shard that owns the seed
+		}
+		st.Counters["seeds_owned"]++
 		if s.Dense {
 			st.Counters["seeds_dense"]++
 		}
@@ -629,6 +664,8 @@ func supervise(res *report.Result, dir string) error {
 		}
 	}
 	st.Counters["max_plan_s"] = int64(planS + 0.5)
+	st.Counters["max_shard_wall_s"] = int64(time.Since(t0).Seconds() + 0.5)
+	st.Counters["shard_wall_s_sum"] = int64(time.Since(t0).Seconds() + 0.5)
 	publish(res, st, pl)
 	return nil
 }
